@@ -99,3 +99,6 @@ package server
 //@   call handleGetValidAC#* asserts[C15] validated: h.validateAC && kind == 0 && arg3 == hash
 //@   call handleContainsValidAC#* asserts[C13] readauth: !h.checkClientCertForReads || certOKHere()
 //@   call handleContainsValidAC#* asserts[C15] validated: h.validateAC && kind == 0 && arg3 == hash
+
+// The HTTP resource path: optional instance prefix, ac/ or cas/, 64 hex digits (pinned on the SSA).
+//@ conststr[C15] init:MustCompile#0 = "^/?(.*/)?(ac/|cas/)([a-f0-9]{64})$"
